@@ -31,6 +31,30 @@ func (w *World) cliSpawns() ([]spawnSite, map[*ssa.Function]bool) {
 				if sc := g.Call.StaticCallee(); sc != nil {
 					workers[sc] = true
 					sites = append(sites, spawnSite{in, sc, fn, true})
+				} else if !g.Call.IsInvoke() {
+					// `go job()` in a helper that is handed the job: the functions bound to that parameter at the
+					// calls of the helper (a literal that only calls a function of the command stands for it)
+					for _, wf := range w.boundWorkers(g.Call.Value, 0) {
+						workers[wf] = true
+						sites = append(sites, spawnSite{in, wf, fn, true})
+					}
+				}
+			}
+		})
+	})
+	// the synchronous run of a job parameter in the same helper
+	w.forAllFuncs("xsel", func(fn *ssa.Function) {
+		allInstrs(fn, func(in ssa.Instruction) {
+			c, ok := in.(*ssa.Call)
+			if !ok || staticCallee(c) != nil || c.Call.IsInvoke() {
+				return
+			}
+			if _, isParam := c.Call.Value.(*ssa.Parameter); !isParam {
+				return
+			}
+			for _, wf := range w.boundWorkers(c.Call.Value, 0) {
+				if workers[wf] {
+					sites = append(sites, spawnSite{in, wf, fn, false})
 				}
 			}
 		})
@@ -39,7 +63,7 @@ func (w *World) cliSpawns() ([]spawnSite, map[*ssa.Function]bool) {
 	w.forAllFuncs("xsel", func(fn *ssa.Function) {
 		allInstrs(fn, func(in ssa.Instruction) {
 			if c, ok := in.(*ssa.Call); ok {
-				if sc := staticCallee(c); sc != nil && workers[sc] {
+				if sc := staticCallee(c); sc != nil && workers[sc] && !thinWorkerWrappers[fn] {
 					sites = append(sites, spawnSite{in, sc, fn, false})
 				}
 			}
@@ -525,4 +549,71 @@ func blockReachesStrict(a, b *ssa.BasicBlock) bool {
 		stack = append(stack, x.Succs...)
 	}
 	return false
+}
+
+// literals that only forward to a worker entry (the call inside them is not a spawn site of its own)
+var thinWorkerWrappers = map[*ssa.Function]bool{}
+
+// boundWorkers: the functions of the command a function value stands for - itself, the function of a closure, or,
+// for a parameter, whatever the callers of the enclosing function pass. A function literal whose whole body is one
+// call of a function of the command stands for that function.
+func (w *World) boundWorkers(v ssa.Value, depth int) []*ssa.Function {
+	if depth > 3 {
+		return nil
+	}
+	thin := func(f *ssa.Function) *ssa.Function {
+		if f.Parent() == nil || len(f.Blocks) != 1 {
+			return f
+		}
+		var inner *ssa.Function
+		n := 0
+		for _, in := range f.Blocks[0].Instrs {
+			if c, ok := in.(ssa.CallInstruction); ok {
+				n++
+				if sc := staticCallee(c); sc != nil && fnPkgKey(sc) == "xsel" {
+					inner = sc
+				}
+			}
+		}
+		if n == 1 && inner != nil {
+			thinWorkerWrappers[f] = true
+			return inner
+		}
+		return f
+	}
+	switch x := v.(type) {
+	case *ssa.Function:
+		return []*ssa.Function{thin(x)}
+	case *ssa.MakeClosure:
+		if f, ok := x.Fn.(*ssa.Function); ok {
+			return []*ssa.Function{thin(f)}
+		}
+	case *ssa.Parameter:
+		fn := x.Parent()
+		idx := -1
+		for i, p := range fn.Params {
+			if p == x {
+				idx = i
+			}
+		}
+		var out []*ssa.Function
+		seen := map[*ssa.Function]bool{}
+		w.forAllFuncs("xsel", func(g *ssa.Function) {
+			allInstrs(g, func(in ssa.Instruction) {
+				c, ok := in.(ssa.CallInstruction)
+				if !ok || staticCallee(c) != fn || idx >= len(c.Common().Args) {
+					return
+				}
+				for _, f := range w.boundWorkers(c.Common().Args[idx], depth+1) {
+					if !seen[f] {
+						seen[f] = true
+						out = append(out, f)
+					}
+				}
+			})
+		})
+		sort.Slice(out, func(i, j int) bool { return out[i].Name() < out[j].Name() })
+		return out
+	}
+	return nil
 }
